@@ -35,7 +35,7 @@ ALPHABET = ['app1', 'app2x', 'applist', 'appscalar', 'app0', 'iter2', 'iter0',
             'itergen', 'set', 'ctx:app1+app1', 'trunc0', 'trunc1', 'truncm1', 'truncbelow', 'trunclen',
             'truncstr', 'badshape', 'badrank', 'modecycle', 'reopen']
 # additional ops for long random histories
-EXTRA = ['ctx:app1+app1+app1', 'ctx:set+iter2', 'ctx:applist+app2x', 'ctx:app0+app1', 'ctx:set+app3', 'app_zerod', 'iterfail_shape', 'iterfail_raise', 'iterfail_first', 'setscalar', 'trunclen1', 'truncfloat', 'truncmid', 'truncneg2', 'app3',
+EXTRA = ['ctx:app1+iterfail_shape', 'ctx:app3+iterfail_raise', 'ctx:app1+app1+app1', 'ctx:set+iter2', 'ctx:applist+app2x', 'ctx:app0+app1', 'ctx:set+app3', 'app_zerod', 'iterfail_shape', 'iterfail_raise', 'iterfail_first', 'setscalar', 'trunclen1', 'truncfloat', 'truncmid', 'truncneg2', 'app3',
          'recreate', 'recreate_fill', 'md_set', 'md_pop', 'md_clear', 'itergen3', 'copy', 'copycast']
 STARTS = [(0,), (3,), (0, 2), (2, 2), (2, 1, 3)]
 
@@ -62,10 +62,13 @@ def build(op, ref, rng, meta):
         # several valid operations performed inside ONE open_array() context of the same object
         subs = op[4:].split('+')
         cur, dos = ref, []
-        for sop in subs:
+        final = None
+        for k_, sop in enumerate(subs):
             e, d_ = build(sop, cur, rng, meta)
-            if e is REJECT or isinstance(e, (Partial, Either)):
-                raise ValueError(f'ctx: only valid sub-operations, not {sop}')
+            if isinstance(e, Partial) and k_ == len(subs) - 1:
+                final, e = e, e.state          # a failing append may close the composite
+            elif e is REJECT or isinstance(e, (Partial, Either)):
+                raise ValueError(f'ctx: only valid sub-operations (a failing append only last), not {sop}')
             cur = e
             dos.append(d_)
 
@@ -74,7 +77,7 @@ def build(op, ref, rng, meta):
                 for d_ in dos:
                     a = d_(D, a, p)
             return a
-        return cur, do
+        return (Partial(cur) if final is not None else cur), do
 
     if op in ('app1', 'app3'):
         x = rows(1 if op == 'app1' else 3)
@@ -327,6 +330,14 @@ def run(env, res, case, monitors):
                         nvalid += 1
             if res.fails:
                 break
+            # Observation must not become part of the workload: reading through the live handle after
+            # every step would refresh any cache a defect depends on.  'end' histories are only observed
+            # after the last step, 'sparse' ones at random steps (and at the end).
+            omode = case.get('observe', 'every')
+            last = i == len(case['ops'])
+            if not last and (omode == 'end' and i > 0 or omode == 'sparse' and random.Random(f"{case['vseed']}:o{i}").random() < 0.7):
+                res.count('steps_unobserved')
+                continue
             # -------- monitors after the step (also after rejected calls) ----
             if 'model' in monitors:
                 check_array_disk(res, D, path, a, ref, want=('live', 'fresh'), mechprefix='model')
